@@ -22,6 +22,10 @@ const wgtFrame = "pubsub/sync.WaitGroupTimeout"
 
 var wo = vlib.WaitOpts{Watchdog: 40 * time.Second, NoTimerCheck: []string{wgtFrame}}
 
+// runawayAfter: a context-aware stage gives up failing after that many deliveries with an ended context (the faults
+// of a case are at most 26, the messages at most 8 x 81: a correct Pub/Sub cannot cause that many).
+const runawayAfter = 20000
+
 var kinds = []string{"handler-error", "handler-panic", "publisher-error", "publisher-panic"}
 
 type fault struct {
@@ -34,6 +38,7 @@ type shape struct {
 	Stages   int     `json:"stages"`
 	FanOut   int     `json:"fan_out_stage"`                   // stage returning 2 outputs (-1 none)
 	Outs     []int   `json:"outputs_per_stage,omitempty"`     // when set: number of outputs of every stage (batch Publish calls on consecutive topics)
+	CtxAware []bool  `json:"context_aware_stage,omitempty"`   // the stage's handler works under the consumed message's context: a delivery whose context has ended fails at once
 	Modes    []int   `json:"output_mode_per_stage,omitempty"` // 0 fresh messages; 1 fresh messages carrying the consumed message's context; 2 the handler returns the consumed message itself (passthrough)
 	DupStage int     `json:"dup_handler_stage"`               // stage with two handlers on its topic (-1 none)
 	FanIn    bool    `json:"fan_in"`                          // two first stages (t0a, t0b) publishing into t1
@@ -53,6 +58,8 @@ func (sh shape) outs(stage int) int {
 	}
 	return 1
 }
+
+func (sh shape) ctxAware(stage int) bool { return stage < len(sh.CtxAware) && sh.CtxAware[stage] }
 
 func (sh shape) mode(stage int) int {
 	if stage < len(sh.Modes) {
@@ -125,6 +132,14 @@ func enumShapes(maxFaults int) []shape {
 			}
 		}
 	}
+	// context-aware block: both stages do their work under the consumed message's context (as a handler behind
+	// middleware.Timeout, or one that passes msg.Context() to a client, does): a redelivery that arrives with an ended
+	// context can never be processed.
+	for _, fs := range enumFaults(2, 1) {
+		for cfg := 0; cfg < 12; cfg++ {
+			out = append(out, shape{Stages: 2, FanOut: -1, DupStage: -1, CtxAware: []bool{true, true}, Msgs: 1 + cfg%2, Cfg: cfg, Faults: fs})
+		}
+	}
 	enumCache[maxFaults] = out
 	return out
 }
@@ -144,7 +159,8 @@ func init() {
 		Rule: "enumerated part: pipelines of 1..2 Router stages connected by GoChannel topics, 1..2 source messages, all 12 GoChannel configs {buffer 0/1/4 x persistent x blocking}, and EVERY placement of up to 1 (quick) / 2 (thorough) faults {handler error, handler panic, publisher error, publisher panic} on call 0..2 of any stage (exhaustive within these bounds: " + fmt.Sprint(len(enumShapes(1))) + " / " + fmt.Sprint(len(enumShapes(2))) + " cases); " +
 			"plus a batch block: 2 stages that both return 2 messages (batch Publish calls overlapping on consecutive topics) x 1..2 messages x 12 configs x every single fault; " +
 			"plus a context block: 2 stages where the outputs of stage 0 carry the consumed message's context (fresh message with that context / the consumed message itself) x 12 configs x every single fault; " +
-			"random part: 1..4 stages, per-stage output mode {fresh, fresh with the consumed message's context, passthrough of the consumed message}, optional fan-out stage (2 outputs) or 1..3 outputs on every stage, optional stage with two handlers on its topic, optional fan-in (two first stages into one topic), 1..8 messages from 1..2 publisher goroutines, up to 12 faults on random calls, yield injection at the router/gochannel hook points. " +
+			"plus a context-aware block: 2 stages whose handlers fail at once when the consumed message's context has ended x 12 configs x every single fault; " +
+			"random part: 1..4 stages, context-aware handlers on half of the stages of 40% of the cases, per-stage output mode {fresh, fresh with the consumed message's context, passthrough of the consumed message}, optional fan-out stage (2 outputs) or 1..3 outputs on every stage, optional stage with two handlers on its topic, optional fan-in (two first stages into one topic), 1..8 messages from 1..2 publisher goroutines, up to 12 faults on random calls, yield injection at the router/gochannel hook points. " +
 			"Oracle at quiescence: every accepted source message has >=1 arrival per expected lineage at the sink subscription; every arrival's lineage is one the pipeline can produce from an accepted source message and its payload is intact; the consumed message of a stage is still unsettled when the Publish of its output returns nil; a source Publish never hangs; the process does not crash. " +
 			"Non-trivial: >=1 injected fault actually fired. Distinct = (shape, faults fired, hook fingerprint).",
 		Assumptions: []string{
@@ -174,6 +190,11 @@ func genRandom(e *vlib.Env) shape {
 	if r.Chance(0.3) {
 		s.DupStage = r.Intn(s.Stages)
 	}
+	if r.Chance(0.4) {
+		for i := 0; i < s.Stages; i++ {
+			s.CtxAware = append(s.CtxAware, r.Chance(0.5))
+		}
+	}
 	if r.Chance(0.35) {
 		for i := 0; i < s.Stages; i++ {
 			m := r.Intn(3)
@@ -201,6 +222,8 @@ type world struct {
 	ackedEarly []string
 	arrivals   map[string]int
 	badPayload []string
+	deadCtx    int  // deliveries to a context-aware stage whose context had already ended
+	runaway    bool // the redeliveries of such a message did not stop
 	events     atomic.Int64
 }
 
@@ -299,8 +322,23 @@ func run(e *vlib.Env) vlib.Result {
 			if k != "" {
 				w.fired = append(w.fired, fmt.Sprintf("s%d:%s@%d", stage, k, call))
 			}
+			dead := 0
+			if k == "" && sh.ctxAware(stage) && in.Context().Err() != nil {
+				w.deadCtx++
+				dead = w.deadCtx
+			}
 			w.mu.Unlock()
 			w.events.Add(1)
+			if dead > 0 {
+				if dead > runawayAfter {
+					// the Pub/Sub keeps redelivering copies that cannot be processed: end the loop so that the case can be judged
+					w.mu.Lock()
+					w.runaway = true
+					w.mu.Unlock()
+					return nil, nil
+				}
+				return nil, in.Context().Err()
+			}
 			switch k {
 			case "handler-error":
 				switch (stage + call) % 3 {
@@ -501,6 +539,10 @@ func run(e *vlib.Env) vlib.Result {
 		for _, b := range w.badPayload {
 			res.Fail("payload-changed", "%s", b)
 		}
+		if w.runaway {
+			res.Fail("message-lost", "a stage that works under the consumed message's context was handed more than %d deliveries whose context had already ended although the subscription and the Pub/Sub were open: such a message can never be processed, the redeliveries never stop; faults fired: %v", runawayAfter, w.fired)
+		}
+		res.Count("deliveries_with_ended_context_to_context_aware_stage", w.deadCtx)
 		for _, a := range w.ackedEarly {
 			res.Fail("ack-before-publish", "%s", a)
 		}
